@@ -3,7 +3,9 @@
 //! block (under CBMC a freed object stays dead for the rest of the trace, so any use of a
 //! pointer obtained before the change fails a pointer check).
 
-use any_vec::mem::{Heap, Mem, MemBuilder, MemBuilderSizeable, MemResizable, Stack, StackN};
+#[cfg(feature = "alloc")]
+use any_vec::mem::Heap;
+use any_vec::mem::{Mem, MemBuilder, MemBuilderSizeable, MemResizable, Stack, StackN};
 use any_vec::traits::Trait;
 use any_vec::{AnyVec, SatisfyTraits};
 use core::alloc::Layout;
@@ -16,6 +18,7 @@ pub trait Backend: MemBuilder + Clone + 'static {
     fn mk<Tr: ?Sized + Trait, E: 'static + SatisfyTraits<Tr>>(cap: usize) -> AnyVec<Tr, Self>;
 }
 
+#[cfg(feature = "alloc")]
 impl Backend for Heap {
     const NAME: &'static str = "Heap";
     const RESIZABLE: bool = true;
@@ -52,6 +55,8 @@ pub static mut RELOC_RESIZES: usize = 0;
 pub static mut RELOC_RELEASES: usize = 0;
 pub static mut RELOC_LIVE_BLOCKS: isize = 0;
 pub static mut RELOC_LAST_LAYOUT: (usize, usize) = (0, 0);
+/// when set, releasing the storage while any tracked element is still alive is a violation
+pub static mut RELOC_EXPECT_EMPTY_ON_RELEASE: bool = false;
 
 pub fn reloc_reset() {
     unsafe {
@@ -60,6 +65,7 @@ pub fn reloc_reset() {
         RELOC_RELEASES = 0;
         RELOC_LIVE_BLOCKS = 0;
         RELOC_LAST_LAYOUT = (0, 0);
+        RELOC_EXPECT_EMPTY_ON_RELEASE = false;
     }
 }
 
@@ -144,6 +150,15 @@ impl Drop for RelocMem {
     fn drop(&mut self) {
         unsafe {
             RELOC_RELEASES += 1;
+            if RELOC_EXPECT_EMPTY_ON_RELEASE {
+                let mut k = 0;
+                let mut live = 0i32;
+                while k < crate::elems::NID {
+                    live += crate::elems::LIVE[k] as i32;
+                    k += 1;
+                }
+                crate::vp_assert!(live == 0, "VP: storage released while elements of the vector are still alive");
+            }
         }
         self.resize(0);
     }
